@@ -11,12 +11,23 @@ def build(ctx, tier="quick"):
     name = lm.plain("name")
     a = s.words(s.start, "head", [("KW", "CREATE"), ("KW", "SEQUENCE")])
     n1 = s.edge(a, name, Tag("head", False, "name"))
-    d = s.edge(a, lm.plain("schema", ["s", "db", "My_Schema", "x_1", "analytics", "Zq9"]), Tag("head", False, "schema"))
+    sch = lm.plain("schema", ["s", "db", "My_Schema", "x_1", "analytics", "Zq9"])
+    d = s.edge(a, sch, Tag("head", False, "schema"))
     d = s.edge(d, P["."], Tag("head", False))
     n2 = s.edge(d, name, Tag("head", False, "name"))
     home = s.new()
     s.eps(n1, home)
     s.eps(n2, home)
+    # delimited names: the options after a quoted / bracketed / back-ticked name are options all the same
+    ex = list(name.exemplars)[:4]
+    for styled in (lm.custom('"name"', [f'"{e}"' for e in ex], "DQ"), lm.custom("[name]", [f"[{e}]" for e in ex], "BR"),
+                   lm.custom("`name`", [f"`{e}`" for e in ex], "BT")):
+        s.edge(a, styled, Tag("head", False, "name"), home)
+        s.edge(d, styled, Tag("head", False, "name"), home)
+    sx = list(sch.exemplars)[:4]
+    d2 = s.edge(a, lm.custom('"schema"', [f'"{e}"' for e in sx], "DQ"), Tag("head", False, "schema"))
+    d2 = s.edge(d2, P["."], Tag("head", False))
+    s.edge(d2, lm.custom('"name"', [f'"{e}"' for e in ex], "DQ"), Tag("head", False, "name"), home)
     s.acc.add(home)
     nums = [N["NUM"], N["NEG"], N["BIG"], N["NEGBIG"]] if tier == "thorough" else [N["NUM"], N["NEG"], N["BIG"]]
     forms = {
